@@ -2,6 +2,7 @@ package file
 
 import (
 	"context"
+	"errors"
 	"io"
 
 	"github.com/ipld/go-ipld-prime"
@@ -96,16 +97,21 @@ func (f *singleNodeReader) Seek(offset int64, whence int) (int64, error) {
 		return 0, err
 	}
 
+	target := int64(f.offset)
 	switch whence {
 	case io.SeekStart:
-		f.offset = int(offset)
+		target = offset
 	case io.SeekCurrent:
-		f.offset += int(offset)
+		target += offset
 	case io.SeekEnd:
-		f.offset = len(buf) + int(offset)
+		target = int64(len(buf)) + offset
 	}
-	if f.offset < 0 {
-		return 0, io.EOF
+	if target < 0 {
+		// leave the reader where it was
+		return 0, errNegativeSeek
 	}
-	return int64(f.offset), nil
+	f.offset = int(target)
+	return target, nil
 }
+
+var errNegativeSeek = errors.New("unixfsnode/file: seek to a negative position")
